@@ -236,13 +236,15 @@ def _gen_get_properties_func(clz: type[ASTNode], props: Mapping[Field, FieldType
             body += f"{_IND*2}yield self.origin, _fld_{f.name}\n"
             return
 
+        # A field may be both non-comparable and non-init: every applicable flag must allow it
+        conditions = []
         if not f.compare:
-            body += f"{_IND}if not skip_non_compare:\n"
-            body += f"{_IND*2}yield self.{f.name}, _fld_{f.name}\n"
-            return
-
+            conditions.append("not skip_non_compare")
         if not f.init:
-            body += f"{_IND}if not skip_non_init:\n"
+            conditions.append("not skip_non_init")
+
+        if conditions:
+            body += f"{_IND}if {' and '.join(conditions)}:\n"
             body += f"{_IND*2}yield self.{f.name}, _fld_{f.name}\n"
             return
 
